@@ -1,12 +1,17 @@
 import PdshVerif.Base.Hex
 import PdshVerif.Pcp.Spec
 import PdshVerif.Pcp.Session
+import PdshVerif.Pcp.Links
+import PdshVerif.Pcp.Statics
 import Driver.Util
 
 /-! line protocol of the `pcp` engine (C11, C12): the receiver model `sink`, the sender model `send`,
 the command-line construction and the two specifications, driven by checks/c11.py, checks/c12.py.
 
     sink   P Y UMASK CNT RULE DIRCHMOD FSIZE CWD DEST STREAM FSENTRY...
+    sinkl  (same arguments; FSENTRYs of kind `l` are symbolic links: <path>:l:<mode>:<mtime>:h<hex of the canonical
+           path of the target>.  The receiver model runs on the link-free view `graftAll` (Pcp/Links.lean); touched paths
+           and the file system are reported at their PHYSICAL places, `physicalAll` / `physLook`)
     rt     P Y UMASK CNT RULE DIRCHMOD FSIZE CWD DEST REVERSE HOST SUBSEC SENTFIX NFS FSENTRY... SRCTOKENS...
     sess   P Y UMASK CNT RULE DIRCHMOD FSIZE CWD DEST REVERSE HOST SUBSEC SENTFIX SKIPREF NFS FSENTRY... SRCTOKENS...
            (the interactive sender of Pcp/Session.lean against the receiver; answer as `rt` plus failed= dead= early=)
@@ -14,6 +19,8 @@ the command-line construction and the two specifications, driven by checks/c11.p
     spec12 DESTPATH PATH...
     cmdf   PROG R P NENT DEST            cmdr PROG R P HOST FILE...
     norm   CWD STRING                    (lexical normal form of a path string)
+    statics ERRFPSHARED                  (Pcp/Statics.lean: the static objects of pcp_server.c the model accounts for, the
+                                         process-wide libc calls it does not cover, and those it does)
 
   FSENTRY   = <path>:<d|f>:<mode octal>:<mtime>:<content>     path = hex of "a/b/c" ("-" = root)
   mtime     = ? | <sec> | <sec>.<usec>          content = - | h<hex> | g<seed>.<len>
@@ -126,6 +133,28 @@ def showResult (init : List (Path × Node)) (st : St) : String :=
   s!"replies={commaJoin (st.out.reverse.map showReply)} touched={commaJoin (touched.map hexOfPath)} " ++
   s!"ub={if st.ub then 1 else 0} fs={commaJoin fsOut}"
 
+/-- `<path>:l:<mode>:<mtime>:h<hex of the target's canonical path>` -/
+def parseLinkEntry (s : String) : Option (Path × Path) :=
+  match s.splitOn ":" with
+  | [p, "l", _, _, c] =>
+    match pathOfHex p, c.toList with
+    | some p, 'h' :: r => (pathOfHex (String.ofList r)).map fun t => (p, t)
+    | _, _ => none
+  | _ => none
+
+def isLinkEntry (s : String) : Bool :=
+  match s.splitOn ":" with
+  | [_, "l", _, _, _] => true
+  | _ => false
+
+/-- `showResult` for a run on the view of a file system with symbolic links: everything at its physical place -/
+def showResultL (init : List (Path × Node)) (links : List (Path × Path)) (st : St) : String :=
+  let touched := st.touched.reverse.map (physicalAll links)
+  let paths := (init.map (·.1) ++ touched).eraseDups
+  let fsOut := paths.map fun p => showNode p (physLook st.fs links p)
+  s!"replies={commaJoin (st.out.reverse.map showReply)} touched={commaJoin (touched.map hexOfPath)} " ++
+  s!"ub={if st.ub then 1 else 0} fs={commaJoin fsOut}"
+
 /-! coverage of the receiver automaton: which branches a run takes (reported by the checks as evidence;
 the states are produced by `step` itself, the tags only look at them) -/
 
@@ -192,6 +221,25 @@ def covRun (o : Opts) (fs : FS) (stream : Str) : St × List String :=
   let fin := finish o r.1
   (fin, addTags r.2 (["eof:" ++ phaseName r.1.phase, s!"eof-depth:{min r.1.stack.length 4}"] ++ newReplyTags r.1 fin))
 
+/-- the tagged step IS `step`: the tags only look at the states -/
+theorem covStep_fst (o : Opts) (acc : St × List String) (b : UInt8) : (covStep o acc b).1 = step o acc.1 b := by
+  unfold covStep
+  dsimp only
+  split <;> (try split) <;> rfl
+
+theorem covFold_fst (o : Opts) (s : Str) (acc : St × List String) :
+    (s.foldl (covStep o) acc).1 = s.foldl (step o) acc.1 := by
+  induction s generalizing acc with
+  | nil => rfl
+  | cons b bs ih => rw [List.foldl_cons, List.foldl_cons, ih, covStep_fst]
+
+/-- what the driver answers for `sink`, `sinkl`, `rt` is the state `run` -- the function Props/C11.lean and
+Props/C12.lean are about -- ends in -/
+theorem covRun_fst (o : Opts) (fs : FS) (stream : Str) : (covRun o fs stream).1 = run o fs stream := by
+  unfold covRun run
+  dsimp only
+  rw [covFold_fst]
+
 /-- pre-order tree tokens; returns siblings up to a closing `)` (consumed) or the end -/
 def parseTrees : Nat → List String → Option (List (Str × Tree) × List String)
   | 0, _ => none
@@ -241,6 +289,14 @@ def handle (line : String) : String :=
       let r := covRun o (fsOf es) stream
       showResult es r.1 ++ " cov=" ++ commaJoin r.2.reverse
     | _, _, _ => "bad-op"
+  | "sinkl" :: p :: y :: um :: cnt :: rule :: dch :: fsz :: cwd :: dest :: stream :: fsw =>
+    let lw := fsw.filter isLinkEntry
+    match mkOpts p y um cnt rule dch fsz cwd dest, Hex.decode stream, parseEntries (fsw.filter (!isLinkEntry ·)),
+          lw.foldr (fun w acc => acc.bind fun l => (parseLinkEntry w).map (· :: l)) (some []) with
+    | some o, some stream, some es, some links =>
+      let r := covRun o (graftAll (fsOf es) links) stream
+      showResultL es links r.1 ++ " cov=" ++ commaJoin r.2.reverse
+    | _, _, _, _ => "bad-op"
   | "rt" :: p :: y :: um :: cnt :: rule :: dch :: fsz :: cwd :: dest :: rev :: host :: ssec :: sfix :: nfs :: rest =>
     match mkOpts p y um cnt rule dch fsz cwd dest, Hex.decode host, nfs.toNat? with
     | some o, some host, some nfs =>
@@ -294,6 +350,9 @@ def handle (line : String) : String :=
           files.foldr (fun w acc => acc.bind fun l => (Hex.decode w).map (· :: l)) (some []) with
     | some prog, some host, some files => Hex.encode (rpdcpCmd prog (flag r) (flag p) files host)
     | _, _, _ => "bad-op"
+  | ["statics", e] =>
+    s!"defs={commaJoin ((serverStatics (flag e)).map (·.1))} forbidden={commaJoin processWideCalls} " ++
+      s!"modelled={commaJoin modelledProcessWideCalls}"
   | ["norm", cwd, s] =>
     match pathOfHex cwd, Hex.decode s with
     | some cwd, some s => hexOfPath (lexNorm cwd s)
